@@ -4,6 +4,7 @@
 package snowflake_client
 
 import (
+	"strings"
 	"errors"
 	"fmt"
 	"sync"
@@ -16,17 +17,23 @@ import (
 	"github.com/pion/webrtc/v3"
 	"pgregory.net/rapid"
 	"verif.local/vstat"
+	"verif.local/vstat/gen"
 )
 
 type rvCase struct {
 	ICE     []string `json:"ice"`
 	Outcome string   `json:"outcome"`
 	Twice   bool     `json:"twice,omitempty"`
+	// outcome custom-answer: a real answer to the client's own offer, re-typed / with its SDP mutated
+	AnsType string   `json:"anstype,omitempty"` // "=" keeps "answer"
+	AnsMuts []string `json:"ansmuts,omitempty"`
 }
 
 type scriptedRendezvous struct {
 	outcome string
 	calls   int
+	ansType string
+	ansMuts []string
 }
 
 func (s *scriptedRendezvous) Exchange(req []byte) ([]byte, error) {
@@ -57,7 +64,7 @@ func (s *scriptedRendezvous) Exchange(req []byte) ([]byte, error) {
 		return []byte(`{"answer":"{\"type\":\"offer\",\"sdp\":\"v=0\\r\\n\"}"}`), nil
 	case "both-empty":
 		return []byte(`{}`), nil
-	case "valid-answer-never-connects":
+	case "valid-answer-never-connects", "custom-answer":
 		// a real answer from a real peer that goes away at once: the data channel never opens
 		pr, err := messages.DecodeClientPollRequest(req)
 		if err != nil {
@@ -85,6 +92,9 @@ func (s *scriptedRendezvous) Exchange(req []byte) ([]byte, error) {
 		}
 		<-done
 		a, _ := util.SerializeSessionDescription(pc.LocalDescription())
+		if s.outcome == "custom-answer" {
+			a = gen.MutatedDescription(a, s.ansType, s.ansMuts)
+		}
 		return (&messages.ClientPollResponse{Answer: a}).EncodePollResponse()
 	}
 	return nil, errors.New("unscripted")
@@ -106,12 +116,23 @@ func runRendezvous(_ *testing.T, c rvCase) error {
 	if c.Twice {
 		n = 2
 	}
-	rv := &scriptedRendezvous{outcome: c.Outcome}
+	rv := &scriptedRendezvous{outcome: c.Outcome, ansType: c.AnsType, ansMuts: c.AnsMuts}
 	broker := &BrokerChannel{Rendezvous: rv, keepLocalAddresses: true, natType: "unknown"}
 	config := &webrtc.Configuration{ICEServers: parseIceServers(c.ICE)}
 	for k := 0; k < n; k++ {
 		rec := &evRec{}
 		peer, err := NewWebRTCPeerWithEvents(config, broker, rec)
+		if c.Outcome == "custom-answer" {
+			// a damaged answer may be refused (nil, error) or - if the damage is harmless - accepted; the
+			// answering peer has gone away, so the data channel never opens: either way the call returns
+			if (err == nil) == (peer == nil) {
+				return fmt.Errorf("attempt %d: answer of type %q with SDP mutations %v: peer construction returned (%v, %v)", k+1, c.AnsType, c.AnsMuts, peer, err)
+			}
+			if peer != nil {
+				peer.Close()
+			}
+			continue
+		}
 		if err == nil || peer != nil {
 			if peer != nil {
 				peer.Close()
@@ -176,4 +197,33 @@ func TestVerifC15Rendezvous(t *testing.T) {
 		vstat.Run(uRv, t, rt, c, true, []string{"outcome=" + c.Outcome, fmt.Sprintf("ice=%q", c.ICE)}, runRendezvous)
 	})
 	uRv.JournalDone()
+}
+
+// C13 (client side, end to end): answers that decode but that the WebRTC stack refuses, or damaged
+// ones it still accepts, returned by the broker to the real peer construction. The client process must
+// survive (journal), the call must return.
+var uAnswers = vstat.New("C13", "c13_client_answers")
+
+func init() { vstat.Register(uAnswers, runRendezvous) }
+
+func TestVerifC13ClientAnswers(t *testing.T) {
+	defer uAnswers.Flush()
+	start := time.Now()
+	rapid.Check(t, func(rt *rapid.T) {
+		if time.Since(start) > time.Duration(vstat.Pick(45, 600))*time.Second {
+			return // time budget of this real-time unit used up
+		}
+		c := rvCase{Outcome: "custom-answer", Twice: rapid.IntRange(0, 3).Draw(rt, "twice") == 0}
+		c.AnsType, c.AnsMuts = gen.DescMutation(rt, "answer")
+		uAnswers.Journal(c)
+		uAnswers.Case(c, true, "type "+c.AnsType, "sdp "+strings.Join(c.AnsMuts, "+"))
+		if err := vstat.Safely(func() error { return runRendezvous(t, c) }); err != nil {
+			if vstat.Inconclusive(err) {
+				uAnswers.Add("inconclusive", 1)
+				return
+			}
+			rt.Fatalf("%s", uAnswers.Fail(c, "%v", err))
+		}
+	})
+	uAnswers.JournalDone()
 }
